@@ -32,6 +32,7 @@ type HarnessSpec struct {
 	Params   map[string]int // harness parameters (zz.Param)
 	TParams  map[string]int // overrides for the thorough tier
 	Twin     bool           // run the vacuity twin (zz.Twin() makes final assertions false)
+	MustReach []string      // zz.Reach labels that some path must reach (existential obligations); unreached = violation "must-reach/<label>"
 	Note     string
 }
 
@@ -450,6 +451,12 @@ func cmdCheck(o checkOpts) int {
 				broken = append(broken, spec.Func+": vacuity twin came back without a violation")
 			} else {
 				fmt.Printf("   vacuity twin: violated as expected (%d assertion sites)\n", nv)
+			}
+		}
+		for _, l := range spec.MustReach {
+			if res.Reached[l] == 0 && len(res.Faults) == 0 && res.Incomplete == "" {
+				v := Violation{Harness: spec.name(), Kind: "assert", Label: "must-reach/" + l, Model: map[string]string{}}
+				res.Violations[v.sig()] = []Violation{v}
 			}
 		}
 		sigs := sortedKeys(res.Violations)
